@@ -240,23 +240,42 @@ def minimise(check, case, violation, prop, known, budget_s):
                 if attempt(cand):
                     progress = True
                     break
-    # 3. schedule simplification: record decisions, then drop them one by one
+    # 3. schedule simplification: replace the seeded policy by the recorded decisions (policy
+    #    "forced"), then drop pre-emptions and non-default picks one at a time while the same
+    #    violation class persists
+    def sched_of(case_):
+        cfg_ = case_.get("cfg") if isinstance(case_.get("cfg"), dict) else None
+        if cfg_ is not None and isinstance(cfg_.get("sched"), dict):
+            return cfg_["sched"], cfg_
+        if isinstance(case_.get("sched"), dict):
+            return case_["sched"], case_
+        return None, None
+
     res = best_res or _fails_same(check, best, vclass, prop, known)
-    if res is not None and res.get("sched") and best.get("sched", {}).get("policy") not in (None, "serial"):
+    cur, _holder = sched_of(best)
+    if res is not None and res.get("sched") and cur is not None and cur.get("policy") not in (None, "serial", "forced"):
         forced = copy.deepcopy(best)
-        forced["sched"] = dict(res["sched"])
+        _s, holder = sched_of(forced)
+        holder["sched"] = dict(res["sched"])
         if attempt(forced):
             for field in ("pre", "choices"):
-                items = list(best["sched"].get(field) or ([] if field == "pre" else {}))
-                for item in items:
+                sched_now, _h = sched_of(best)
+                items = list(sched_now.get(field) or ([] if field == "pre" else {}))
+                # halves first, then single decisions
+                half = len(items) // 2
+                groups = ([items[:half], items[half:]] if half > 1 else []) + [[it] for it in items]
+                for group in groups:
                     if time.time() > deadline:
                         break
                     cand = copy.deepcopy(best)
+                    csched, _h = sched_of(cand)
                     if field == "pre":
-                        cand["sched"]["pre"] = [x for x in cand["sched"]["pre"] if x != item]
+                        csched["pre"] = [x for x in csched.get("pre", []) if x not in group]
                     else:
-                        cand["sched"]["choices"].pop(item, None)
-                    attempt(cand)
+                        for it in group:
+                            csched.get("choices", {}).pop(it, None)
+                    if csched != sched_of(best)[0]:
+                        attempt(cand)
     return best, tried
 
 
